@@ -199,7 +199,10 @@ class C04(PropBase):
     rule = ("cases = well-formed synthetic threads: (a) scan-findable stacks laid out by the Coq builder scan_layout, depth 1..64, gaps up "
             "to the window edge (159 / 39 words; MIPS64 127); (b) frame-pointer chains, scan-findable and CFI-described stacks for every CPU "
             "(x86, amd64, arm, arm64, arm64_old, mips32, mips64) x OS (other, windows, ios), depth 1..64, 1-3 modules, also at the top of the "
-            "address space; (c) stacks mixing CFI and scan per frame; non-trivial = at least 2 frames; distinct = distinct case lines")
+            "address space; (c) stacks mixing CFI and scan per frame; (d) x86 stacks whose functions are described by STACK WIN frame-data / "
+            "FPO records and STACK CFI mixed per frame, depth 3..40; (e) x86 STACK WIN stacks (FPO type 0 with and without "
+            "allocates_base_pointer, frame data type 4) with direct recursion from a single call site, depth 3..16 activations, where functions "
+            "(in two thirds of the stacks the recursing one) have no FUNC/PUBLIC record; non-trivial = at least 2 frames; distinct = distinct case lines")
     trusted_base = [
         "Coq 8.16.1 kernel (vm_compute only in the non-vacuity Examples)",
         "walker model C05/Model.v (hand-written, correspondence-checked) and the stack builders of C04/Model.v",
@@ -216,9 +219,11 @@ class C04(PropBase):
                 "scan incl. mips32; c04_constants pins the documented windows / slack. One technique per walk. "
                 "Mixed techniques and real STACK CFI text are covered by the correspondence run only: depth 1..64 stacks for every CPU x OS "
                 "through the real walk_stack and the extracted model, with an independent oracle comparing the frames with the generated chain.",
-        "note": "Partial: no theorem for frame-pointer chains, for the mips32 scanner (MIN_ARGS skip) or for technique-per-frame mixes; STACK WIN "
-                "not generated; function names not observed (C11). Trusted: Coq kernel, hand-written walker model (correspondence-checked), "
-                "extraction + glue.",
+        "note": "Partial: one technique per walk in the theorems (scan incl. mips32, CFI through the correct oracle, frame-pointer chains); no "
+                "theorem here for technique-per-frame mixes. STACK WIN: all-FPO stacks of unbounded depth are proved at C07 (c07_fpo_recovers_chain, on "
+                "C07's model of walk_stack's loop with the translated from_ctx_and_args derivation); frame-data programs, allocates_base_pointer = 1 and "
+                "mixes with STACK CFI are covered by the run (d, e) through the whole symbol-file model (C09 grammar + C07 evaluation inside C05's walker). "
+                "Function names not observed (C11). Trusted: Coq kernel, hand-written walker model (correspondence-checked), extraction + glue.",
     }
     assumptions = ["stack memory little-endian; symbol provider = breakpad Symbolizer over string symbol files",
                    "CFI evaluation abstract in the theorem (correct oracle); concrete rule family `.cfa: SP N + .ra: .cfa w - ^` in the run"]
